@@ -643,71 +643,10 @@ func c09FaultyClose(c *explore.Ctx) {
 				if c.Expired() || c.NViolations() > 0 {
 					return
 				}
-				s := base.NewSess()
-				s.FS.Record = true
-				if err := s.OpenDB(); err != nil {
-					c.HarnessError("Open: %v", err)
-				}
-				for _, o := range pre {
-					_ = s.Apply(o)
-				}
-				before := s.FS.Mutations()
-				from := len(s.FS.Log)
-				s.FS.FailAt = before + n
-				cerr := s.ProtectedClose()
-				s.FS.FailAt = 0
-				if s.FS.Mutations() < before+n {
+				done, cerr, bad := c09FaultyCloseCase(c, base, bc[0], bc[1], pre, n, memo)
+				if done {
 					break
 				}
-				c.Add("executions", 1)
-				c.Add("faulty_close_cases", 1)
-				log := s.FS.Log
-				opts := simfs.PowerLossOpts{ReduceUnread: true, Dir: explore.DBPath, LockName: "lock", SegmentExt: refmodel.SegmentExt, MaxPerPos: 1024}
-				bad := ""
-				// instants after Close returned (the process is gone; nothing more is written)
-				simfs.PowerLossImages(base.Image, log, len(log), len(log), opts, func(im simfs.Image) bool {
-					c.Add("images", 1)
-					rec, fresh := memo.get(im.FS, base, explore.RecoverOpts{})
-					if fresh {
-						c.Add("recoveries", 1)
-						c.Distinct("image", explore.Hash64("fc", bc[0], bc[1], im.FS.Hash()))
-					}
-					switch {
-					case rec.OpenErr != "":
-						bad = "Open failed: " + rec.OpenErr
-					case rec.Internal != "":
-						bad = "inconsistent: " + rec.Internal
-					case cerr == nil && !s.Model.Equal(rec.Contents):
-						bad = "Close returned nil but the contents differ from what was closed: " + s.Model.Diff(rec.Contents, s.KeyName)
-					case cerr != nil:
-						// Close failed: it promised nothing; the session's unsynced writes may or may not have survived
-						// (per key: the durable base value, or a value written in this session) - C06's oracle
-						a := allowedSet{base: base.Model, later: map[string]map[string]bool{}, durOp: -1}
-						if base.Cfg.SyncWrites {
-							a.base = s.Model // every write was a durability point
-						}
-						m := base.Model.Clone()
-						for _, o := range pre {
-							k := string(s.Keys[o.Key])
-							if a.later[k] == nil {
-								a.later[k] = map[string]bool{}
-							}
-							if o.Kind == explore.Delete {
-								a.later[k][absentMark] = true
-								delete(m, k)
-							} else {
-								a.later[k][s.Model[k]] = true
-							}
-						}
-						bad = a.check(rec.Contents, s.KeyName)
-					}
-					if bad != "" {
-						bad = fmt.Sprintf("surviving-prefix choice {%s}: %s", im.Desc, bad)
-						return false
-					}
-					return true
-				})
-				_ = from
 				if bad != "" {
 					c.Violation(explore.Violation{Key: fmt.Sprintf("faulty-close base=%s cfg=%s pre=%d fault@%d", bc[0], bc[1], pi, n),
 						What: fmt.Sprintf("base %s/%s, [%s] then Close with a transient I/O error at its mutating file-system call #%d (Close returned %v), then a power failure: %s", bc[0], bc[1], explore.WordString(pre), n, cerr, bad), Size: n,
@@ -717,6 +656,71 @@ func c09FaultyClose(c *explore.Ctx) {
 			}
 		}
 	}
+}
+
+// c09FaultyCloseCase: done = Close makes fewer than n mutating file-system calls.
+func c09FaultyCloseCase(c *explore.Ctx, base *explore.Base, bname, cfg string, pre []explore.Op, n int, memo recMemo) (done bool, cerr error, bad string) {
+	s := base.NewSess()
+	s.FS.Record = true
+	if err := s.OpenDB(); err != nil {
+		c.HarnessError("Open: %v", err)
+	}
+	for _, o := range pre {
+		_ = s.Apply(o)
+	}
+	before := s.FS.Mutations()
+	s.FS.FailAt = before + n
+	cerr = s.ProtectedClose()
+	s.FS.FailAt = 0
+	if s.FS.Mutations() < before+n {
+		return true, nil, ""
+	}
+	c.Add("executions", 1)
+	c.Add("faulty_close_cases", 1)
+	log := s.FS.Log
+	opts := simfs.PowerLossOpts{ReduceUnread: true, Dir: explore.DBPath, LockName: "lock", SegmentExt: refmodel.SegmentExt, MaxPerPos: 1024}
+	// instants after Close returned (the process is gone; nothing more is written)
+	simfs.PowerLossImages(base.Image, log, len(log), len(log), opts, func(im simfs.Image) bool {
+		c.Add("images", 1)
+		rec, fresh := memo.get(im.FS, base, explore.RecoverOpts{})
+		if fresh {
+			c.Add("recoveries", 1)
+			c.Distinct("image", explore.Hash64("fc", bname, cfg, im.FS.Hash()))
+		}
+		switch {
+		case rec.OpenErr != "":
+			bad = "Open failed: " + rec.OpenErr
+		case rec.Internal != "":
+			bad = "inconsistent: " + rec.Internal
+		case cerr == nil && !s.Model.Equal(rec.Contents):
+			bad = "Close returned nil but the contents differ from what was closed: " + s.Model.Diff(rec.Contents, s.KeyName)
+		case cerr != nil:
+			// Close failed: it promised nothing; the session's unsynced writes may or may not have survived
+			// (per key: the durable base value, or a value written in this session) - C06's oracle
+			a := allowedSet{base: base.Model, later: map[string]map[string]bool{}, durOp: -1}
+			if base.Cfg.SyncWrites {
+				a.base = s.Model // every write was a durability point
+			}
+			for _, o := range pre {
+				k := string(s.Keys[o.Key])
+				if a.later[k] == nil {
+					a.later[k] = map[string]bool{}
+				}
+				if o.Kind == explore.Delete {
+					a.later[k][absentMark] = true
+				} else {
+					a.later[k][s.Model[k]] = true
+				}
+			}
+			bad = a.check(rec.Contents, s.KeyName)
+		}
+		if bad != "" {
+			bad = fmt.Sprintf("surviving-prefix choice {%s}: %s", im.Desc, bad)
+			return false
+		}
+		return true
+	})
+	return false, cerr, bad
 }
 
 func runC06Conc(c *explore.Ctx) {
